@@ -372,7 +372,23 @@ fn foreign_proof(w: &World, c: &crate::repl::Concrete, nodes: u64) -> Option<Pro
 /// C04 step: honest proof for `req`, altered, offered to replica n *before* the honest one.
 pub fn do_tamper(w: &mut World, n: usize, req: &Req, m: &Mutation) {
     let Some(out) = crate::repl::request_and_create(w, n, req) else { return };
-    let Some(honest) = out.proof else { return };
+    let Some(honest) = out.proof.clone() else { return };
+    offer_mutations(w, n, &out, &honest, std::slice::from_ref(m), req);
+}
+
+pub fn do_tamper_all(w: &mut World, n: usize, req: &Req) {
+    let Some(out) = crate::repl::request_and_create(w, n, req) else { return };
+    let Some(honest) = out.proof.clone() else { return };
+    let ms = all_mutations(&honest);
+    offer_mutations(w, n, &out, &honest, &ms, req);
+}
+
+fn offer_mutations(w: &mut World, n: usize, out: &crate::repl::SyncOutcome, honest: &Proof, ms: &[Mutation], req: &Req) {
+  let mut any_accepted = false;
+  for m in ms {
+    if w.aborted.is_some() || w.nodes[n].core.is_none() {
+        return;
+    }
     let forged = match m {
         Mutation::ForeignWriter => foreign_proof(w, &out.concrete, out.nodes),
         other => mutate(&honest, other, w),
@@ -382,6 +398,7 @@ pub fn do_tamper(w: &mut World, n: usize, req: &Req, m: &Mutation) {
         let info_before = w.nodes[n].core.as_ref().map(|c| c.info());
         match crate::repl::offer_untrusted(w, n, &f, &format!("{m:?}"), "C04") {
             Some(true) => {
+                any_accepted = true;
                 w.stats.tampered_accepted += 1;
                 w.stats.probe("tampered_accepted");
                 // accepted: the replica must still be truthful: (length, byte_length) is a state
@@ -416,16 +433,29 @@ pub fn do_tamper(w: &mut World, n: usize, req: &Req, m: &Mutation) {
             None => return,
         }
     }
+  }
     if w.aborted.is_some() || w.nodes[n].core.is_none() {
         return;
     }
-    // the honest proof that follows is still accepted (C04: honest replication can complete)
+    // the honest proof that follows is still accepted (C04: honest replication can complete).
+    // If an altered (but still truthful) variant was accepted it has already done the honest
+    // proof's job and moved the replica on, so the honest request is derived afresh.
     let before = w.viols.len();
-    let ok = crate::repl::apply_honest(w, n, &honest, &out.concrete);
+    let ok = if any_accepted {
+        match crate::repl::request_and_create(w, n, req) {
+            Some(o2) => match &o2.proof {
+                Some(p2) => crate::repl::apply_honest(w, n, p2, &o2.concrete),
+                None => true,
+            },
+            None => w.viols.len() == before,
+        }
+    } else {
+        crate::repl::apply_honest(w, n, honest, &out.concrete)
+    };
     if !ok {
         // re-tag: acceptance failure after an alteration is C04's concern
         for v in w.viols[before..].iter_mut() {
-            if v.clause == "C03.accept" {
+            if v.clause == "C03.accept" || v.clause == "C03.create" {
                 v.clause = "C04.honest-after".into();
             }
         }
@@ -519,5 +549,32 @@ pub fn build_raw(w: &World, s: &RawProofSpec) -> Proof {
                 _ => vec![3u8; 10],
             },
         }),
+    }
+}
+
+pub fn rand_mutation(r: &mut crate::rng::Rng) -> Mutation {
+    let sec = *r.pick(&SECS);
+    let idx = r.below(6) as u32;
+    let d = *r.pick(&[1i64, -1, 1, -1, 2, -2, 7]);
+    match r.below(24) {
+        0 | 1 => Mutation::FlipValue { bit: r.below(4096) as u32 },
+        2 | 3 | 4 => Mutation::FlipNodeHash { sec, idx, bit: r.below(256) as u32 },
+        5 => Mutation::FlipSignature { bit: r.below(512) as u32 },
+        6 => Mutation::Fork { delta: 1 },
+        7 => Mutation::BlockIndex { delta: d },
+        8 => Mutation::HashIndex { delta: d },
+        9 => Mutation::SeekBytes { delta: d },
+        10 => Mutation::UpgradeStart { delta: d },
+        11 => Mutation::UpgradeLength { delta: d },
+        12 | 13 => Mutation::NodeIndex { sec, idx, delta: d },
+        14 | 15 => Mutation::NodeSize { sec, idx, delta: d },
+        16 => Mutation::DropNode { sec, idx },
+        17 => Mutation::DupNode { sec, idx },
+        18 => Mutation::SwapNodes { sec, idx },
+        19 => Mutation::InsertNode { sec, idx },
+        20 => Mutation::RemoveSection { sec },
+        21 => Mutation::SubstituteBlock { same_len: r.chance(1, 2) },
+        22 => if r.chance(1, 2) { Mutation::ForeignSignature } else { Mutation::StaleSignature },
+        _ => Mutation::ForeignWriter,
     }
 }
